@@ -227,14 +227,14 @@ func (root *Root) regField(obj *Object, fd *FieldDef, goField string, args ...st
 	if fd.method != nil {
 		if 0 < len(args) {
 			if fd.args.Len() != len(args) {
-				return fmt.Errorf("%w: not enough arguments for field %s of %s", ErrMeta, goField, obj.meta)
+				return fmt.Errorf("%w: not enough arguments for field %s of %s", ErrMeta, goField, objMeta)
 			}
 			newArgs := argList{}
 			for _, arg := range args {
 				if a := fd.args.get(arg); a != nil {
 					_ = newArgs.add(a)
 				} else {
-					err = fmt.Errorf("%w: %s is not an argument on field %s of %s", ErrMeta, arg, goField, obj.meta)
+					err = fmt.Errorf("%w: %s is not an argument on field %s of %s", ErrMeta, arg, goField, objMeta)
 					break
 				}
 			}
